@@ -16,10 +16,11 @@
 (***************************************************************************)
 EXTENDS Rational, Sequences, FiniteSets, TLC
 
-CONSTANTS Family            \* set of compu method configurations (see MC_Compu.tla)
+\* The configuration families are given by the next-state action of the model module (MC_Compu.tla).
 
-VARIABLES phase, cm
-vars == <<phase, cm>>
+VARIABLES phase, cm,
+          itab, ptab       \* the tables of cm, evaluated once by the action Evaluate
+vars == <<phase, cm, itab, ptab>>
 
 NONE == -999
 Absent == [k |-> "absent", v |-> 0]
@@ -161,22 +162,24 @@ Injective(c) ==
 (* probes *)
 IntProbes(t) == {<<n, 1, "int">> : n \in (IF t = "uint" THEN 0..14 ELSE -3..14)}
 HalfProbes == {<<n, 2, "float">> : n \in -6..28}
-IProbes(c) == IF IsIntType(c.it) THEN IntProbes(c.it) \cup {<<4, 1, "float">>, <<9, 2, "float">>}
+\* configurations flagged "wide" are probed over a whole 7-bit domain (floating point round trips fail for few values only)
+IProbes(c) == IF "wide" \in DOMAIN c THEN {<<n, 1, "int">> : n \in 0..127} ELSE
+              IF IsIntType(c.it) THEN IntProbes(c.it) \cup {<<4, 1, "float">>, <<9, 2, "float">>}
               ELSE HalfProbes \cup {<<n, 1, "int">> : n \in {-1, 0, 3, 10}}
-PProbes(c) == IF c.pt = "text" THEN {} ELSE
+PProbes(c) == IF c.pt = "text" \/ "wide" \in DOMAIN c THEN {} ELSE
               IF IsIntType(c.pt) THEN {<<n, 1, "int">> : n \in -12..45} ELSE {<<n, 2, "float">> : n \in -24..90}
 
-ITab(c) == {[x |-> p, r |-> I2P(c, p)] : p \in IProbes(c)}
-PTab(c) == {[y |-> p, c |-> P2INum(c, Val(p))] : p \in PProbes(c)}
+MkITab(c) == {[x |-> p, r |-> I2P(c, p)] : p \in IProbes(c)}
+MkPTab(c) == {[y |-> p, c |-> P2INum(c, Val(p))] : p \in PProbes(c)}
+ITab(c) == itab
+PTab(c) == ptab
 TTab(c) == IF c.pt # "text" THEN {} ELSE {[t |-> t, c |-> P2IText(c, t)] : t \in {"A", "B", "C", "D", "ZZ"}}
 
 ---------------------------------------------------------------------------
-Init == phase = "pick" /\ cm = [cat |-> "none"]
-Pick(c) == phase = "pick" /\ cm' = c /\ phase' = "picked"
+Init == phase = "pick" /\ cm = [cat |-> "none"] /\ itab = {} /\ ptab = {}
+Pick(c) == phase = "pick" /\ cm' = c /\ phase' = "picked" /\ UNCHANGED <<itab, ptab>>
 \* a separate step, so that the evaluation of the tables is spread over all TLC workers
-Evaluate == phase = "picked" /\ phase' = "done" /\ UNCHANGED cm
-Next == (\E c \in Family : Pick(c)) \/ Evaluate
-Spec == Init /\ [][Next]_vars
+Evaluate == phase = "picked" /\ phase' = "done" /\ itab' = MkITab(cm) /\ ptab' = MkPTab(cm) /\ UNCHANGED cm
 
 ---------------------------------------------------------------------------
 (* design-level sanity of the reference itself (checked by TLC on every configuration) *)
@@ -192,6 +195,6 @@ InverseInverts ==
 \* a monotone continuous method has an inverse candidate for every value between two images
 MonContCovers ==
     Done /\ MonCont(cm) =>
-        \A a, b \in ITab(cm) : \A p \in PProbes(cm) :
-            (a.r.ok /\ b.r.ok /\ RLe(a.r.q, Val(p)) /\ RLe(Val(p), b.r.q)) => P2INum(cm, Val(p)) # {}
+        \A a, b \in ITab(cm) : \A e \in PTab(cm) :
+            (a.r.ok /\ b.r.ok /\ RLe(a.r.q, Val(e.y)) /\ RLe(Val(e.y), b.r.q)) => e.c # {}
 =============================================================================
